@@ -127,7 +127,7 @@ func respell(t *rapid.T) (*gen.Style, []string, bool) {
 	st := gen.DefaultStyle()
 	var names []string
 	permute := false
-	all := []string{"newline", "indent", "comments", "multiline", "spread", "quote-names", "trailing-comma", "blank-lines", "rule-order", "space-before-colon", "empty-annotations", "mixed-annotations", "enum-item-notes", "note-on-next-line", "join-lines", "notes", "stray-notes", "blank-in-empty", "prop-after-array", "name-gap", "block-in-rules", "colon-gap", "tight-annotations", "split-annotations", "tight-comments", "value-on-next-line"}
+	all := []string{"newline", "indent", "comments", "multiline", "spread", "quote-names", "trailing-comma", "blank-lines", "rule-order", "space-before-colon", "empty-annotations", "mixed-annotations", "enum-item-notes", "note-on-next-line", "join-lines", "notes", "stray-notes", "blank-in-empty", "prop-after-array", "name-gap", "block-in-rules", "colon-gap", "tight-annotations", "split-annotations", "tight-comments", "value-on-next-line", "key-comments", "close-late"}
 	n := rapid.IntRange(1, 5).Draw(t, "nrewrites")
 	for _, r := range rapid.Permutation(all).Draw(t, "rewrites")[:n] {
 		names = append(names, r)
@@ -183,6 +183,13 @@ func respell(t *rapid.T) (*gen.Style, []string, bool) {
 			st.TightComments = true // user comments glued to the value before them
 			if st.Comments < 3 {
 				st.Comments = rapid.IntRange(3, 4).Draw(t, "tightCommentLevel")
+			}
+		case "key-comments":
+			st.KeyComments = rapid.IntRange(1, 3).Draw(t, "keyComments") // user comments between a key and its colon, between the colon and the value
+		case "close-late":
+			st.CloseLate = rapid.IntRange(1, 2).Draw(t, "closeLate") // a multi-line annotation closes on the next line, the sibling starts there
+			if !st.MultiLine && st.MixedAnn == 0 {
+				st.MultiLine = true
 			}
 		case "tight-annotations":
 			st.TightAnn = true // the annotation starts right after the value
